@@ -13,6 +13,7 @@ import Gobptree.Proofs.RunOk
 import Gobptree.Proofs.Scan
 import Gobptree.Proofs.SpecSorted
 import Gobptree.Proofs.CSFinal
+import Gobptree.Proofs.CFinal2
 
 namespace Gobptree
 
@@ -123,6 +124,28 @@ theorem C08_structure_quiescent (P : Params K) (tree : Tree K V) (progs : List (
   rw [this] at h
   exact h
 
+/-- **C08 (ordering, under every schedule).** In EVERY reachable configuration the ordering
+    clauses hold as well: keys strictly ascending in every node, every subtree inside the
+    interval its parent's separators assign to it (each separator ≤ every key beneath it and
+    > every key beneath its left neighbour), the first separator included. -/
+theorem C08_ordering_concurrent (lt : K → K → Bool) (P : Params K) (tree : Tree K V) (progs : List (List (COp K V)))
+    (hkp : KParams lt P) (ht : TreeOk none tree) (hord : OrdTree lt tree) (hsep : SepTree lt tree)
+    (ho : tree.order = P.order) (hp : PadOk P) (hd : Disciplined progs)
+    (c : Config K V) (hr : Reachable (Config.init P tree progs) c) :
+    OrdTree lt c.tree ∧ TreeOk (holeOf c.threads) c.tree :=
+  let h := reachable_kfinv' lt P tree progs hkp ht hord hsep ho hp hd c hr
+  ⟨h.kinv.ord, h.cinv.s.tree⟩
+
+/-- **C08 (quiescence): the whole shape invariant.** With no operation in flight: structure
+    with full minimum occupancy, and ordering. -/
+theorem C08_shape_quiescent (lt : K → K → Bool) (P : Params K) (tree : Tree K V) (progs : List (List (COp K V)))
+    (hkp : KParams lt P) (ht : TreeOk none tree) (hord : OrdTree lt tree) (hsep : SepTree lt tree)
+    (ho : tree.order = P.order) (hp : PadOk P) (hd : Disciplined progs)
+    (c : Config K V) (hr : Reachable (Config.init P tree progs) c) (hq : Quiescent c) :
+    OrdTree lt c.tree ∧ TreeOk none c.tree :=
+  ⟨(C08_ordering_concurrent lt P tree progs hkp ht hord hsep ho hp hd c hr).1,
+   C08_structure_quiescent P tree progs ht ho hp hd c hr hq⟩
+
 end Gobptree.Conc
 
 #print axioms Gobptree.C08_leaves_and_chain
@@ -133,3 +156,5 @@ end Gobptree.Conc
 #print axioms Gobptree.C08_root_leaf
 #print axioms Gobptree.Conc.C08_structure_concurrent
 #print axioms Gobptree.Conc.C08_structure_quiescent
+#print axioms Gobptree.Conc.C08_ordering_concurrent
+#print axioms Gobptree.Conc.C08_shape_quiescent
